@@ -390,12 +390,12 @@ theorem foldl_best_max (vs : List (Ver × Meta)) :
           · exact Nat.le_trans (Nat.le_of_not_gt hgt) hb0
           · exact h2 p hp
 
-/-- **getDist_some_sound**: the distribution handed to the solver is an offered version of the requested
-project that every clause of the query accepts, and no accepted offered version is higher -/
-theorem getDist_some_sound (env : Env) (s : St) (q : Req) (m : Meta) (h : getDist env s q = some m) :
-    ∃ vs v, (keyOfReq q, vs) ∈ env.univ ∧ (v, m) ∈ vs ∧ acceptsReq s q v = true ∧
+/-- **getDistIn_some_sound**: what one repository hands out is an offered version of the requested project that
+every clause of the query accepts, and no accepted offered version is higher -/
+theorem getDistIn_some_sound (u : Univ) (s : St) (q : Req) (m : Meta) (h : getDistIn u s q = some m) :
+    ∃ vs v, (keyOfReq q, vs) ∈ u ∧ (v, m) ∈ vs ∧ acceptsReq s q v = true ∧
       ∀ p ∈ vs, acceptsReq s q p.1 = true → p.1 ≤ v := by
-  unfold getDist at h
+  unfold getDistIn at h
   split at h
   · cases h
   · rename_i k vs hfind
@@ -414,12 +414,10 @@ theorem getDist_some_sound (env : Env) (s : St) (q : Req) (m : Meta) (h : getDis
         intro p hp ha
         exact (foldl_best_max _ none r hb).2 p (List.mem_filter.2 ⟨hp, ha⟩)
 
-/-- **getDist_none_truthful**: a `NoCandidate` answer means that no offered version of the first matching
-project entry is accepted by the query — the failure names a requirement that truly nothing satisfies -/
-theorem getDist_none_truthful (env : Env) (s : St) (q : Req) (h : getDist env s q = none)
-    (vs : List (Ver × Meta)) (hfind : env.univ.find? (·.1 = keyOfReq q) = some (keyOfReq q, vs)) :
+theorem getDistIn_none_truthful (u : Univ) (s : St) (q : Req) (h : getDistIn u s q = none)
+    (vs : List (Ver × Meta)) (hfind : u.find? (·.1 = keyOfReq q) = some (keyOfReq q, vs)) :
     ∀ p ∈ vs, acceptsReq s q p.1 = false := by
-  unfold getDist at h
+  unfold getDistIn at h
   rw [hfind] at h
   simp only [Option.map_eq_none_iff] at h
   have hnil := foldl_best_none _ h
@@ -428,5 +426,32 @@ theorem getDist_none_truthful (env : Env) (s : St) (q : Req) (h : getDist env s 
   · rfl
   · have : p ∈ vs.filter (fun p => acceptsReq s q p.1) := List.mem_filter.2 ⟨hp, ha⟩
     rw [hnil] at this; cases this
+
+/-- **getDist_some_sound**: the distribution handed to the solver comes from the front (a prior solution) or from
+the back repository; in that repository it is an offered version of the requested project that every clause of
+the query accepts, and no accepted version offered there is higher -/
+theorem getDist_some_sound (env : Env) (s : St) (q : Req) (m : Meta) (h : getDist env s q = some m) :
+    ∃ u, (u = env.front ∨ u = env.univ) ∧ ∃ vs v, (keyOfReq q, vs) ∈ u ∧ (v, m) ∈ vs ∧ acceptsReq s q v = true ∧
+      ∀ p ∈ vs, acceptsReq s q p.1 = true → p.1 ≤ v := by
+  unfold getDist at h
+  cases hf : getDistIn env.front s q with
+  | some m' =>
+    rw [hf] at h
+    have hm : m' = m := by simpa using h
+    subst hm
+    exact ⟨env.front, Or.inl rfl, getDistIn_some_sound _ s q m' hf⟩
+  | none =>
+    rw [hf] at h
+    exact ⟨env.univ, Or.inr rfl, getDistIn_some_sound _ s q m h⟩
+
+/-- **getDist_none_truthful**: a `NoCandidate` answer means that no offered version of the first matching
+project entry is accepted by the query — the failure names a requirement that truly nothing satisfies -/
+theorem getDist_none_truthful (env : Env) (s : St) (q : Req) (h : getDist env s q = none)
+    (vs : List (Ver × Meta)) (hfind : env.univ.find? (·.1 = keyOfReq q) = some (keyOfReq q, vs)) :
+    ∀ p ∈ vs, acceptsReq s q p.1 = false := by
+  unfold getDist at h
+  cases hf : getDistIn env.front s q with
+  | some m' => rw [hf] at h; cases h
+  | none => rw [hf] at h; exact getDistIn_none_truthful _ s q h vs hfind
 
 end RV.G
